@@ -48,6 +48,8 @@ pub fn unify(state: &mut TypeCheckerState, watchdog: &DynWatchdog) -> Result<()>
     // And then resolves all equalities by using the union operation to combine
     // possibly-disjoint sets to create inference sets.
     for type_var in state.variables() {
+        #[cfg(smlxl_storage_layout_extractor_verif)]
+        let state = crate::verif_hooks::OrderedInferences(&*state);
         for type_expr in state.inferences(type_var) {
             match type_expr {
                 TypeExpression::Equal { id } => forest.union(&type_var, id),
@@ -84,6 +86,8 @@ pub fn unify(state: &mut TypeCheckerState, watchdog: &DynWatchdog) -> Result<()>
 
             // Get all of the inferences
             let mut inferred_expressions: VecDeque<_> = inferences.into_iter().collect();
+            #[cfg(smlxl_storage_layout_extractor_verif)]
+            crate::verif_hooks::order_deque("unify.fold", &mut inferred_expressions);
             let mut current = inferred_expressions
                 .pop_front()
                 .expect("We know there is at least one item in the expressions queue");
@@ -112,18 +116,24 @@ pub fn unify(state: &mut TypeCheckerState, watchdog: &DynWatchdog) -> Result<()>
 
         // When we get to the end of that loop, we need to insert the new type variables
         // into the forest so we can add any inferences involving them
+        #[cfg(smlxl_storage_layout_extractor_verif)]
+        let all_new_ty_vars = crate::verif_hooks::ordered_vec("unify.vars", all_new_ty_vars);
         for var in all_new_ty_vars {
             forest.insert(var);
         }
 
         // When we get to the end of that loop, we need to compute the unions of
         // the variables with their new associated inferences
+        #[cfg(smlxl_storage_layout_extractor_verif)]
+        let all_equalities = crate::verif_hooks::ordered_vec("unify.eqs", all_equalities);
         for Equality { left, right } in all_equalities {
             forest.union(&left, &right);
         }
 
         // When we get to the end of that loop, we need to add any new typing judgements
         // to the state to continue computation
+        #[cfg(smlxl_storage_layout_extractor_verif)]
+        let all_judgements = crate::verif_hooks::ordered_vec("unify.judgements", all_judgements);
         for Judgement { tv, expr } in all_judgements {
             forest.add_data(&tv, InferenceSet::from([expr]));
         }
